@@ -9,7 +9,7 @@ import core
 THEOREMS = ["InfOCF.C18_formulaRank_none", "InfOCF.C18_formulaRank_min", "InfOCF.C18_accept_iff", "InfOCF.C18_marginalize_spec",
             "InfOCF.C18_marginal_formula_rank", "InfOCF.C18_conditionalize_spec", "InfOCF.C18_tpo_layers", "InfOCF.C18_tpo_roundtrip_order",
             "InfOCF.C18_tpo_roundtrip_exact"]
-RULE = ("random total rankings over 1-5 atoms (asymmetric: independent ranks 0..6 per world, plus sparse and constant ones) given to "
+RULE = ("random total rankings over 1-6 atoms (asymmetric: independent ranks 0..6 per world, plus sparse and constant ones) given to "
         "PreOCF.init_custom; formula_rank / conditional_acceptance for random compound formulas, marginalize for random proper atom subsets "
         "(incl. preserved formula ranks over the remaining atoms), compute_conditionalization, ranks2tpo and tpo2ranks with identity, "
         "strictly increasing and 'i-th distinct rank' numberings; thorough: exhaustive for <= 2 atoms with ranks <= 2; "
@@ -177,7 +177,7 @@ def recheck(case):
 
 
 def gen_case(rng, n=None, max_rank=6):
-    n = n or rng.randint(1, 5)
+    n = n or rng.choice([1, 2, 3, 3, 4, 4, 5, 5, 6])
     style = rng.random()
     N = 2 ** n
     if style < 0.7:
@@ -188,6 +188,10 @@ def gen_case(rng, n=None, max_rank=6):
         ranks = [rng.choice([2, 9]) for _ in range(N)]
     formulas = [core.gen_formula(rng, n, rng.choice([1, 2, 3]), 0.1) for _ in range(5)]
     formulas.append(("&", ("a", 0), ("!", ("a", 0))))
+    if n >= 6:
+        # long chains (tree height >= 5), and a pair that differs only in the innermost literals
+        ch = core.deep_chain(rng, rng.sample(range(n), 6), op=rng.choice(["&", "|"]), pos=0.6)[0]
+        formulas[0], formulas[1] = ch, core.flip_innermost(ch, rng.choice([1, 2]))
     conds = [core.gen_cond(rng, n, 2, 0.08) for _ in range(5)]
     drops, margf = [], {}
     if n >= 2:
